@@ -565,7 +565,7 @@ class FeaGen(object):
                     here = []
                     if rnd.random() < 0.7:
                         here.append(rnd.choice(refs))
-                        if rnd.random() < 0.15:
+                        if rnd.random() < 0.3:
                             here.append(rnd.choice(refs))
                     chosen.append(here)
                 # at most one length-changing lookup, and only as the last record of the rule
@@ -978,14 +978,14 @@ class FeaGen(object):
             lk.name = name
             self.named.append(lk)
 
-    def block_text(self, lk, indent=""):
+    def block_text(self, lk, indent="", known_zero=False):
         ext = " useExtension" if self.rnd.random() < 0.15 else ""
         if ext:
             self.stmt_kinds.add("useExtension")
         out = [indent + "lookup %s%s {" % (lk.name, ext)]
         if lk.flag_text:
             out.append(indent + "    " + lk.flag_text)
-        elif indent:
+        elif indent and not (known_zero and self.rnd.random() < 0.7):
             out.append(indent + "    lookupflag 0;")
         out.extend(indent + "    " + l for l in lk.lines)
         out.append(indent + "} %s;" % lk.name)
@@ -1039,6 +1039,22 @@ class FeaGen(object):
                 del self.gdef[x]
         elif self.gdef_mode == "inferred":
             self.gdef = {m: 3 for m in MARKS}   # flags see the marks; completed after generation
+        # a pair of named single substitutions that do not commute (x -> y in the one defined
+        # LAST, y -> z in the one defined FIRST): a contextual rule that calls them in the
+        # written order "later one, earlier one" on one glyph must give z
+        self.feedpair = None
+        if self.level >= 2 and rnd.random() < 0.45:
+            x, y, z = self.pick(LETTERS[:10], 3)
+            for src, dst in ((y, z), (x, y)):
+                extra = [g_ for g_ in self.pick(SC + KW[:2], 2)]
+                pairs = [(src, dst)] + [(e, self.dst_glyph([e])) for e in extra if rnd.random() < 0.5]
+                lines = ["sub %s by %s;" % (self.g(a), self.g(b)) for a, b in pairs]
+                lk = Lk("GSUB", "single", {"kind": "subst", "flag": {}, "subtables": [[((a,), (b,)) for a, b in pairs]]}, lines, "", [[src]])
+                self.nname += 1
+                self.register(lk, "L%d" % self.nname)
+                self.blocks.append(self.block_text(lk))
+            self.feedpair = (self.named[-1], self.named[-2], x)
+            self.stmt_kinds.add("single")
         # standalone named lookups
         for _ in range(rnd.randrange(1, 5)):
             lk = self.new_lookup(True)
@@ -1065,6 +1081,25 @@ class FeaGen(object):
                 nonlocal flag_known, prev_anon
                 for _i in range(n):
                     r = rnd.random()
+                    if self.feedpair and prev_anon != "chain":
+                        hi, lo, x = self.feedpair
+                        self.feedpair = None
+                        back, ahead = self.context()
+                        if not back and not ahead:
+                            ahead = [self.pick(LETTERS[:10], 1)]
+                        line = "sub %s;" % self.ctx_text(back, ["%s' lookup %s lookup %s" % (self.g(x), hi.name, lo.name)], ahead)
+                        rule = {"back": back, "input": [[x]], "ahead": ahead, "lookups": [[hi.index, lo.index]]}
+                        w, plain = self.ctx_witness(back, [[x]], ahead, {})
+                        lk = Lk("GSUB", "chain", {"kind": "chain", "flag": {}, "subtables": [[rule]]}, [line], "", [w])
+                        if (flag_known or "") not in ("", "lookupflag 0;") or flag_known is None:
+                            out.append("    lookupflag 0;")
+                            flag_known = "lookupflag 0;"
+                        self.register(lk)
+                        out.append("    " + line)
+                        reg(cur, tag, lk)
+                        prev_anon = "chain"
+                        self.stmt_kinds.add("ctx-two-lookups-one-glyph")
+                        continue
                     if r < 0.35 and self.named:
                         lk = rnd.choice(self.named)
                         out.append("    lookup %s;" % lk.name)
@@ -1075,9 +1110,11 @@ class FeaGen(object):
                         lk = self.new_lookup(True)
                         self.nname += 1
                         self.register(lk, "L%d" % self.nname)
-                        out.extend(self.block_text(lk, "    "))
+                        out.extend(self.block_text(lk, "    ", known_zero=(flag_known == "")))
                         reg(cur, tag, lk)
-                        flag_known = None
+                        # feaLib keeps a block's lookupflag in force after the block: restate it,
+                        # except when the block provably left it at 0
+                        flag_known = None if (lk.flag_text or flag_known != "") else ""
                         prev_anon = None
                         self.stmt_kinds.add("lookup-block-in-feature")
                     else:
@@ -1098,15 +1135,16 @@ class FeaGen(object):
                         alt_values[tag] = max(alt_values.get(tag, 0), lk.feature_value)
 
             items(rnd.randrange(1, 4), cur)
-            if len(self.langsys) > 1 or rnd.random() < 0.15:
-                if rnd.random() < 0.5:
+            if len(self.langsys) > 1 or rnd.random() < 0.25:
+                if rnd.random() < 0.7:
                     scripts = self.pick(sorted(SCRIPTS), rnd.randrange(1, 3))
                     for sc in scripts:
                         out.append("    script %s;" % sc)
                         self.stmt_kinds.add("script")
                         cur = [(sc, "dflt")]
-                        flag_known, prev_anon = None, None
-                        if rnd.random() < 0.7:
+                        # "script" implicitly sets the lookupflag attribute to 0 (feature file spec 4.b.ii)
+                        flag_known, prev_anon = "", None
+                        if rnd.random() < 0.8:
                             items(rnd.randrange(1, 3), cur)
                         for lg in SCRIPTS[sc]:
                             if rnd.random() < 0.5:
@@ -1199,6 +1237,20 @@ def make_texts(rnd, prog, n_random=12):
                 if users:
                     sc, lg, tag = rnd.choice(users)
                     texts.append(("near-miss", w, {tag: 1}, sc, lg))
+    # marks put between the glyphs of a witness: whatever the lookup's own flag does not skip
+    # must break the match (probes a lookup flag or filtering set that leaks from elsewhere)
+    gdef = prog["model"].get("gdef") or {}
+    allmarks = sorted(g for g, c in gdef.items() if c == 3)
+    if allmarks:
+        for table in ("GSUB", "GPOS"):
+            for lk in prog["lookups"][table]:
+                users = sorted(by_lookup.get((table, lk.index), ()))
+                for w in lk.seqs:
+                    if len(w) < 2 or not users or rnd.random() < 0.4:
+                        continue
+                    k = rnd.randrange(1, len(w))
+                    sc, lg, tag = rnd.choice(users)
+                    texts.append(("mark-interleaved", list(w[:k]) + [rnd.choice(allmarks)] + list(w[k:]), {tag: 1}, sc, lg))
     # ordering texts: concatenated witnesses of different lookups, all features on
     wl = [w for table in ("GSUB", "GPOS") for lk in prog["lookups"][table] for w in lk.wit]
     for _ in range(min(8, len(wl))):
